@@ -337,6 +337,14 @@ example : ∃ s x, ReachableDrained {} s ∧ registrations s 0 ≤ 1 ∧ lookup 
   ⟨run (init {}) [.recv 0 (.new 0 (cfgA 1)), .mgr], _,
    reachableDrained_run ReachableDrained.init _ (by decide), by decide, rfl, by decide, by decide⟩
 
+/-- the hypotheses of `after_outcome_nothing_pending`, `retired_holds_no_state_partial` and
+    `one_outcome_partial_requests` are met by the end state of a complete response -/
+example : ∃ s, ReachableDrained {} s ∧ registrations s 0 ≤ 1 ∧ s.seenIds.count 0 ≤ 1 ∧
+    1 ≤ completedCount s 0 + cancelledCount s 0 ∧ lookup s 0 = none ∧ parkNew s.park ≠ some (0, 0) ∧
+    (∀ w ∈ s.workers, w.id = 0 → w.phase = .done) :=
+  ⟨run (init {}) doneScript, reachableDrained_run ReachableDrained.init _ (by decide), by decide, by decide, by decide,
+   by decide, by decide, by decide⟩
+
 /-- re-use after the id is drained: two registrations, two outcomes (`outcome_count_le_registrations` is tight) -/
 example : ∃ s, ReachableDrained {} s ∧ registrations s 0 = 2 ∧ completedCount s 0 + cancelledCount s 0 = 2 :=
   ⟨run (init {}) ([.recv 0 (.new 0 (cfgA 1)), .mgr, .recv 0 (.cancel 0), .mgr, .thaw] ++ doneScript),
